@@ -193,6 +193,10 @@ func (p *PsUnpacker) FeedRtpBody(rtpBody []byte, rtpts uint32) error {
 	for p.buf.Len() != 0 {
 		rb := p.buf.Bytes()
 		i := 0
+		if len(rb) < 4 {
+			// 不足一个start code，等待后续数据
+			return nil
+		}
 		code := bele.BeUint32(rb[i:])
 		i += 4
 
@@ -344,6 +348,10 @@ func (p *PsUnpacker) parsePsm(rb []byte, index int) int {
 func (p *PsUnpacker) parseAvStream(code int, rtpts uint32, rb []byte, index int) int {
 	i := index
 
+	if len(rb)-i < 2 {
+		return -1
+	}
+
 	// 注意，由于length是两字节，所以存在一个帧分成多个pes包的情况
 	length := int(bele.BeUint16(rb[i:]))
 	if length == 65535 {
@@ -357,9 +365,28 @@ func (p *PsUnpacker) parseAvStream(code int, rtpts uint32, rb []byte, index int)
 		return -1
 	}
 
+	// pes包至少包含3字节的固定头
+	if length < 3 {
+		nazalog.Warnf("invalid pes packet, skip. length=%d", length)
+		return 2 + length
+	}
+
 	ptsDtsFlag := rb[i+1] >> 6
 	phdl := int(rb[i+2]) // pes header data length
 	i += 3
+
+	// pes header data(包含pts, dts)必须完整包含在pes包内
+	needed := 0
+	if ptsDtsFlag&0x2 != 0 {
+		needed += 5
+	}
+	if ptsDtsFlag&0x1 != 0 {
+		needed += 5
+	}
+	if phdl > length-3 || phdl < needed {
+		nazalog.Warnf("invalid pes packet, skip. length=%d, phdl=%d, ptsDtsFlag=%d", length, phdl, ptsDtsFlag)
+		return 2 + length
+	}
 
 	var pts int64 = -1
 	var dts int64 = -1
